@@ -91,7 +91,16 @@ fn gen_hdr(raw: &RawCase) -> Hdr {
         compatible: if version == 3 && s.chance(1, 3) { 1 } else { 0 },
         autoclear: if version == 3 && s.chance(1, 4) { 1 << s.pick(4) } else { 0 },
         refcount_order: order,
-        header_length: if version == 2 { 72 } else { 112 },
+        // the specification allows version 3 headers of 104 bytes and longer ones
+        header_length: if version == 2 {
+            72
+        } else {
+            match s.weighted(&[60, 15, 25]) {
+                0 => 112,
+                1 => 104,
+                _ => [120u32, 128, 136, 192][s.pick(4)],
+            }
+        },
         compression_type: 0,
         backing,
         exts,
